@@ -543,6 +543,7 @@ func (s *Swarm) waitForDirectConn(ctx context.Context, p peer.ID) (*Conn, error)
 
 	// Wait for limited connection to upgrade to a direct connection either by
 	// connection reversal or hole punching.
+	verifhook.AtArg("swarm.waitForDirectConn.beforeRegister", p)
 	ch := make(chan struct{})
 	s.directConnNotifs.m[p] = append(s.directConnNotifs.m[p], ch)
 	s.directConnNotifs.Unlock()
